@@ -45,6 +45,14 @@ PROPS = {
         required="spec",
         nontrivial="history reuses an index or contains a failing batch deletion",
     ),
+    "C10": dict(
+        domain="conc", module="Props.C10",
+        theorems=["C10_handles_distinct", "C10_alive_from_return", "C10_delete_check_passes", "C10_delete_of_live_ok",
+                  "C10_delete_recorded", "C10_final_state_sequential", "C10_final_state_refines",
+                  "C10_queue_interleaving", "C10_never_stuck", "C10_programs_in_order", "C10_after_any_history"],
+        required="faithful",
+        nontrivial="an enumerated schedule in which at least one compare-exchange failed and was retried",
+    ),
 }
 
 # ------------------------------------------------------------------ known findings
@@ -418,12 +426,18 @@ def run_check(pid, tier, seed):
     dom = PROPS[pid]["domain"]
     if dom == "world":
         return check_world(pid, tier, seed)
+    if dom == "conc":
+        from . import conc_check
+        return conc_check.check_conc(pid, tier, seed, PROPS, proof_obligations, TRUSTED_COMMON)
     raise SystemExit("unknown domain")
 
 
 def replay(path):
     obj = json.load(open(path))
     pid = obj["property"]
+    if obj.get("domain") == "conc":
+        from . import conc_check
+        return conc_check.replay_conc(path, obj)
     if "encoded" not in obj:
         print(json.dumps(obj, indent=1))
         return 1
